@@ -351,6 +351,10 @@ def seed_from_init(it, cls, obj, params=None, skip=()):
                     env[x.arg] = it.eval(d, dict(env), f.module)
                 except (AnalysisError, Undecided, Raised):
                     pass
+        if a.vararg is not None:
+            env[a.vararg.arg] = params.get(a.vararg.arg, ())
+        if a.kwarg is not None:
+            env[a.kwarg.arg] = params.get(a.kwarg.arg, {})  # (`**info_kwargs` of the slot constructors: empty unless the rule passes some)
         for st in _stmts_in_order(f.node):
             tgt = None
             if isinstance(st, ast.Assign) and len(st.targets) == 1:
